@@ -170,7 +170,11 @@ func (b *B) Tx(s Spec) *types.Transaction {
 		tx.MaxFee = big.NewInt(0)
 		signed0, _ := types.SignTx(tx, replica.Key(s.From))
 		f := b.FeeOf(signed0)
-		tx.MaxFee = new(big.Int).Mul(f, big.NewInt(2))
+		// the pool prices admission with the network's minimal rate, block processing with the state's rate
+		if mf := fee.CalculateFee(b.R.App.ValidatorsCache.NetworkSize(), fee.GetFeePerGasForNetwork(b.R.App.ValidatorsCache.NetworkSize()), signed0); mf.Cmp(f) > 0 {
+			f = mf
+		}
+		tx.MaxFee = new(big.Int).Mul(f, big.NewInt(3))
 		if tx.MaxFee.Cmp(replica.Dna(1)) < 0 {
 			tx.MaxFee = replica.Dna(1)
 		}
